@@ -69,6 +69,12 @@ def mulAbs (m : M4 α) (x y z : α) : V3 α :=
    Num.abs (m.a10 * x) + Num.abs (m.a11 * y) + Num.abs (m.a12 * z) + Num.abs m.a13,
    Num.abs (m.a20 * x) + Num.abs (m.a21 * y) + Num.abs (m.a22 * z) + Num.abs m.a23⟩
 
+/-- `mul3x3_abs` -/
+def mulAbs3 (m : M4 α) (x y z : α) : V3 α :=
+  ⟨Num.abs (m.a00 * x) + Num.abs (m.a01 * y) + Num.abs (m.a02 * z),
+   Num.abs (m.a10 * x) + Num.abs (m.a11 * y) + Num.abs (m.a12 * z),
+   Num.abs (m.a20 * x) + Num.abs (m.a21 * y) + Num.abs (m.a22 * z)⟩
+
 /-- transposed 3x3 product used by `transform_normal` -/
 def mulNormalT (m : M4 α) (v : V3 α) : V3 α :=
   ⟨m.a00 * v.x + m.a10 * v.y + m.a20 * v.z,
@@ -127,16 +133,16 @@ def invTransformNormal (t : Transform α) (v : V3 α) : V3 α := t.m.mulNormalT 
 
 /-- the shared body of `(inv_)transform_pt_with_error` -/
 def ptWithError (m : M4 α) (p : V3 α) : V3 α × V3 α :=
-  (m.mulPoint p, (m.mulAbs p.x p.y p.z).smul (gamma (3 : α)))
+  (m.mulPoint p, (m.mulAbs p.x p.y p.z).smul (gamma (4 : α)))
 def ptPropagateError (m : M4 α) (p e : V3 α) : V3 α × V3 α :=
   let r := ptWithError m p
-  let err1 := (m.mulAbs e.x e.y e.z).smul (1 + gamma (3 : α))
+  let err1 := (m.mulAbs3 e.x e.y e.z).smul (1 + gamma (3 : α))
   (r.1, err1 + r.2)
 def vecWithError (m : M4 α) (v : V3 α) : V3 α × V3 α :=
-  (m.mulVec v, (m.mulAbs v.x v.y v.z).smul (gamma (3 : α)))
+  (m.mulVec v, (m.mulAbs3 v.x v.y v.z).smul (gamma (3 : α)))
 def vecPropagateError (m : M4 α) (v e : V3 α) : V3 α × V3 α :=
   let r := vecWithError m v
-  let err1 := (m.mulAbs e.x e.y e.z).smul (1 + gamma (3 : α))
+  let err1 := (m.mulAbs3 e.x e.y e.z).smul (1 + gamma (3 : α))
   (r.1, err1 + r.2)
 
 /-- the shared tail of the four `*_ray*` functions -/
